@@ -89,13 +89,15 @@ def body_dirpage(kind: int, where: int, p: str) -> bool:
                 return pr.renderdirend(pr.entry) or ""
             # a real directory whose name merely starts with "URL:" (no "://", so it is not a URL link)
             pr.entry = rl.entry(cfg, "1", "name", "/URL:x" + payload, mimetype="application/gopher-menu")
-            return (pr.renderdirstart(pr.entry) or "") + (pr.renderdirend(pr.entry) or "")
+            if where == 3:
+                return pr.renderdirstart(pr.entry) or ""
+            return pr.renderdirend(pr.entry) or ""
         finally:
             q.uninstall()
 
     out, ref = run(p), run("a")
     hx.reach()
-    hx.require(rl.skeleton(out) == rl.skeleton(ref), "C13:markup-injection:%s:%s" % (dl.PROTO_NAMES[kind], ["dir-title", "notfound-message", "dir-end", "dir-named-URL:"][where]),
+    hx.require(rl.skeleton(out) == rl.skeleton(ref), "C13:markup-injection:%s:%s" % (dl.PROTO_NAMES[kind], ["dir-title", "notfound-message", "dir-end", "dir-named-URL:start", "dir-named-URL:end"][where]),
                lambda: "payload=%r page=%r" % (p, out[:300]))
     return True
 
@@ -202,8 +204,8 @@ def obligations(tier, seed):
                           desc="%s renderobjinfo/getrenderstr with a symbolic payload as %s, every item type: same element/attribute skeleton as for an inert payload" % (dl.PROTO_NAMES[kind], POS[pos]),
                           bounds="|payload| <= %d over {< > & \" ' CR LF a}, 5 item types (symbolic)" % n,
                           functions=["protocols.http.HTTPProtocol.renderobjinfo/getrenderstr/getimgtag" if kind == 2 else "protocols.wap.WAPProtocol.getrenderstr"]))
-        for where in range(4):
-            obs.append(Ob(id="C13.1-page[%s,%s]" % (dl.PROTO_NAMES[kind], ["dir-title", "notfound-message", "dir-end", "dir-named-URL:"][where]), body="harness.C13:body_dirpage", sig="kind: int, where: int, p: str",
+        for where in range(5):
+            obs.append(Ob(id="C13.1-page[%s,%s]" % (dl.PROTO_NAMES[kind], ["dir-title", "notfound-message", "dir-end", "dir-named-URL:start", "dir-named-URL:end"][where]), body="harness.C13:body_dirpage", sig="kind: int, where: int, p: str",
                           pre=["kind == %d" % kind, "where == %d" % where, "len(p) <= %d" % n, ALPH_PRE], timeout=300 if tier == "quick" else 1200,
                           desc="%s page chrome with a symbolic payload: skeleton unchanged" % dl.PROTO_NAMES[kind], bounds="|payload| <= %d over {< > & \" ' CR LF a}" % n,
                           functions=["renderdirstart/renderdirend/filenotfound"]))
